@@ -393,6 +393,13 @@ func runLinz(o Opts) *Result {
 		sort.Ints(slotIDs)
 		// DeleteAll/ExpireAll do not touch the stable entries' slots here (they do in reality; the stable keys are
 		// excluded from batch-op scenarios): only scenarios without batch ops check the stable entries through Walk
+		// values written with a ttl of -1h: born long expired, no linearization lets a Read return them as a hit
+		bornExpired := map[string]bool{}
+		for _, e := range events {
+			if f := strings.Split(e.op, ":"); len(f) == 4 && f[0] == "w" && f[3] == "1" {
+				bornExpired[f[2]] = true
+			}
+		}
 		for _, slot := range slotIDs {
 			var evs []string
 			overlap := false
@@ -402,6 +409,22 @@ func runLinz(o Opts) *Result {
 				for _, k := range e.keys {
 					if slotOf(k) == slot {
 						in = true
+					}
+				}
+				if in && strings.HasPrefix(e.op, "r:") && strings.HasPrefix(e.res, "hit:") && bornExpired[strings.TrimPrefix(e.res, "hit:")] {
+					// known finding F9a in its semantic form: ExpireAll stamps entry.E in place; a Read that took its clock reading
+					// before the stamp and loads E after it sees "expires in the future" and returns the long-expired value as a
+					// hit. Recognised by exactly this shape (the read overlaps an ExpireAll); the read is taken out of the history,
+					// the rest is judged as usual. The same result WITHOUT an overlapping ExpireAll stays in and fails the history.
+					during := false
+					for _, x := range events {
+						if x.op == "xa" && x.inv < e.ret && e.inv < x.ret {
+							during = true
+						}
+					}
+					if during {
+						fail("C08", "read-fresh-during-expireall", fmt.Sprintf("Read of k%d returned value %s as a hit although that entry was written with a ttl of -1h; the Read [%d,%d] overlaps an ExpireAll, which rewrites the expiry of the stored entry in place while the Read compares it with a clock reading taken earlier", e.keys[0], strings.TrimPrefix(e.res, "hit:"), e.inv, e.ret), "")
+						continue
 					}
 				}
 				if in {
